@@ -913,6 +913,34 @@ CHECKS['C11']['note'] = CHECKS['C11']['note'] + (
     ' Resume strata also hand the state back in equal but separately built spaces, from a run on an equal but distinct operator, '
     'and in float32.')
 
+CHECKS['C02']['note'] = CHECKS['C02']['note'].replace('165 expected model/code branches', '295 expected model/code branches') + (
+    ' Validation stream: documented constructor rejections must raise and legal neighbours pass the full oracle. Magnitude stream: '
+    'homogeneity, finiteness and positivity on 2^k-scaled vectors on every path (open findings C02-F6 / C02-F7: p-norms from '
+    'unscaled powers overflow / underflow at extreme magnitudes; the theorems are over exact arithmetic and do not cover the IEEE '
+    'range).')
+CHECKS['C18']['note'] = CHECKS['C18']['note'] + (
+    ' Executed definitions with no theorem also include normAxes and adjointExposed. Generator: wavelet family cross over all '
+    'discrete PyWavelets families (adjoint exposed exactly for orthogonal wavelets), argument-form strata for every constructor '
+    'option of the DFT, FT and wavelet operators and the ft_utils functions, the documented equivalences; PyWavelets\' own '
+    'reconstruction error bounds the demanded accuracy (dmey ~1e-2).')
+CHECKS['C13']['note'] = CHECKS['C13']['note'] + (
+    ' Explicit range= / domain= options (other dtype, equal-but-distinct space, weighted power spaces) are part of the operator '
+    'streams: adjoint spaces swapped, full-basis inner-product identity (open findings C13-F1 / C13-F2: weighted power spaces in '
+    'Gradient / Divergence adjoints, same root cause as C05 F56).')
+CHECKS['C16']['note'] = CHECKS['C16']['note'] + (
+    ' Result ownership (result never aliases the input, identity resizes included), a validation stream (38 documented rejections '
+    'with their nearest legal neighbours), history streams (reused kwargs dict / operator / arrays) and the domain-dtype x '
+    'range-dtype x pad_const cross are part of every run.')
+CHECKS['C05']['note'] = CHECKS['C05']['note'] + (
+    ' Adjoint gates (every family / option that decides whether .adjoint is exposed: all pywt families, affine and non-linear '
+    'variants: documented error or full-matrix identity), magnitude strata (weights and cell volumes 2^-40..2^40, near-equal '
+    'pairs) with relative tolerances, minimal sizes for every family.')
+CHECKS['C11']['note'] = CHECKS['C11']['note'] + (
+    ' On the non-exact stream the per-iterate tolerance is 1e-9*scale + 1e-2 * (sensitivity envelope measured by re-running the real '
+    'code with inputs perturbed by +-1e-9), so amplification and threshold flips caused by rounding-sized differences do not count.')
+CHECKS['C12']['note'] = CHECKS['C12']['note'] + (
+    ' Model-compared families use the same sensitivity-envelope tolerance as C11.')
+
 NOT_YET = {}
 
 
